@@ -57,7 +57,13 @@ func (r *Runner) execDataset(cmd string, a []string) string {
 		var v float64
 		okp, msg := guard(func() {
 			if cmd == "dlq" {
-				v = e.d.LowerQuantile(q)
+				// Quantile is documented as the lower quantile: every other time ask it instead
+				r.obsMode++
+				if r.obsMode%2 == 0 {
+					v = e.d.Quantile(q)
+				} else {
+					v = e.d.LowerQuantile(q)
+				}
 			} else {
 				v = e.d.UpperQuantile(q)
 			}
